@@ -254,10 +254,11 @@ def build_driver(name):
         return exe
 
 
-def build_harness(name, scratch, extra_overlay=None, tags=None):
+def build_harness(name, scratch, extra_overlay=None, tags=None, goarch=None):
     """Compile harness/<name>/ into /repo's current working tree through an overlay:
     *.go files become package main at <repo>/cmd/verif_<name>/; entries of overlay.json
-    ({"<path relative to repo>": "<file in the harness dir>"}) are added to other packages."""
+    ({"<path relative to repo>": "<file in the harness dir>"}) are added to other packages.
+    goarch (e.g. "386"): cross-compile (CGO off); linux/386 binaries run on this amd64 kernel."""
     hdir = os.path.join(ROOT, "harness", name)
     ov = {}
     for f in sorted(os.listdir(hdir)):
@@ -275,9 +276,12 @@ def build_harness(name, scratch, extra_overlay=None, tags=None):
         ov[os.path.join(REPO, k)] = v
     ovp = os.path.join(scratch, "overlay-%s.json" % name)
     json.dump({"Replace": ov}, open(ovp, "w"))
-    exe = os.path.join(scratch, "harness-%s" % name)
+    exe = os.path.join(scratch, "harness-%s%s" % (name, "-" + goarch if goarch else ""))
+    env = go_env()
+    if goarch:
+        env.update(GOARCH=goarch, CGO_ENABLED="0")
     rc, out = sh(["go", "build", "-overlay", ovp, "-o", exe, "./cmd/verif_" + name],
-                 cwd=REPO, env=go_env(), timeout=900)
+                 cwd=REPO, env=env, timeout=900)
     return (exe if rc == 0 else None), out
 
 
@@ -436,7 +440,8 @@ def run_pipe(harness_exe, harness_args, driver_exe, driver_args, timeout=1500, m
 # --------------------------------------------------------------------------- standard pipeline
 
 def standard_run(res, harness, harness_args, driver, rule, assumptions,
-                 driver_args=(), exhaustive=False, corr_name=None, timeout=1500, known_matcher=None):
+                 driver_args=(), exhaustive=False, corr_name=None, timeout=1500, known_matcher=None,
+                 also_goarch=None, goarch_args=None):
     """The common shape of a correspondence check.
 
     The Go harness (harness/<harness>/, compiled into /repo's tree) prints one observation per
@@ -449,6 +454,10 @@ def standard_run(res, harness, harness_args, driver, rule, assumptions,
                                        (reported as `no-failing-input-found` if no PFAIL/MISMATCH);
         STATS {json}                   final line (Common.print_stats).
     known_matcher(obs) -> description or None marks an observation as a listed known finding.
+    also_goarch ("386"): the same harness is ALSO cross-compiled for that architecture (32-bit int/uint/uintptr)
+    and run with goarch_args (default: harness_args) against the same architecture-independent model; its
+    MISMATCH/PFAIL/DISAGREE lines are reported with the prefix [GOARCH=<arch>] (the property does not
+    depend on the platform's int size; the model fixes every width explicitly).
     """
     res.corr_obligations = [corr_name or "impl = extracted model on every generated case (%s | %s)" % (harness, driver)]
     scratch = scratch_dir()
@@ -487,6 +496,34 @@ def standard_run(res, harness, harness_args, driver, rule, assumptions,
             if k not in ("cases", "distinct_nontrivial", "samples", "kinds", "mismatches"):
                 res.cov[k] = v
         res.assumptions = list(assumptions)
+        if also_goarch:
+            tag = "[GOARCH=%s] " % also_goarch
+            exe2, log2 = build_harness(harness, scratch, goarch=also_goarch)
+            if exe2 is None:
+                res.violation("harness no longer builds for GOARCH=%s against /repo's working tree (broken tie)" % also_goarch,
+                              {"correspondence": res.corr_obligations[0], "build_log": log2[-3000:]}, no_input=True)
+            else:
+                a2 = [str(a) for a in (goarch_args if goarch_args is not None else harness_args)]
+                rc2, out2, err2 = run_pipe(exe2, a2, drv, [str(a) for a in driver_args], timeout=timeout)
+                stats2 = None
+                for line in out2.splitlines():
+                    if line.startswith("STATS "):
+                        stats2 = json.loads(line[6:])
+                    elif line.startswith("MISMATCH "):
+                        mism.append(tag + line[9:])
+                    elif line.startswith("PFAIL "):
+                        pfail.append(tag + line[6:])
+                    elif line.startswith("DISAGREE "):
+                        disag.append(tag + line[9:])
+                if rc2 != 0 or stats2 is None:
+                    res.violation("implementation harness (GOARCH=%s) or model driver failed (rc=%s)" % (also_goarch, rc2),
+                                  {"correspondence": res.corr_obligations[0], "stderr": err2[-3000:], "stdout_tail": out2[-1500:]}, no_input=True)
+                else:
+                    res.cov["second_architecture"] = {
+                        "goarch": also_goarch, "harness_args": a2, "evaluations": stats2["cases"],
+                        "distinct_nontrivial": stats2["distinct_nontrivial"], "mismatches": stats2["mismatches"],
+                        "note": "same harness cross-compiled (int/uint are 32 bit), same extracted model"}
+                    res.corr_obligations.append("the same for the harness cross-compiled with GOARCH=%s (32-bit int/uint)" % also_goarch)
         found = False
         for kind, items in (("property predicate fails on the implementation's output", pfail),
                             ("implementation disagrees with the specification (model = spec is a theorem)", mism)):
